@@ -21,6 +21,38 @@ class Frame:
         self.label = finfo.qualname if finfo else '<spec>'
 
 
+def split_goal(g, depth=0):
+    """Split a goal into independently provable conjuncts: And at top level, under ForAll, and in the
+    consequent of Implies."""
+    if depth > 6:
+        return [g]
+    if z3.is_and(g):
+        out = []
+        for c in g.children():
+            out.extend(split_goal(c, depth + 1))
+        return out
+    if z3.is_implies(g):
+        a, b = g.children()
+        bs = split_goal(b, depth + 1)
+        if len(bs) > 1:
+            return [z3.Implies(a, x) for x in bs]
+        return [g]
+    if z3.is_eq(g) and g.arg(0).sort() == z3.BoolSort() and depth <= 3 and not z3.is_const(g.arg(0)) \
+            and not z3.is_const(g.arg(1)):
+        a, b = g.children()
+        return split_goal(z3.Implies(a, b), depth + 1) + split_goal(z3.Implies(b, a), depth + 1)
+    if z3.is_quantifier(g) and g.is_forall():
+        n = g.num_vars()
+        vs = [z3.Const('%s!sp%d' % (g.var_name(n - 1 - i), depth), g.var_sort(n - 1 - i)) for i in range(n)]
+        body = z3.substitute_vars(g.body(), *vs)
+        bs = split_goal(body, depth + 1)
+        if len(bs) > 1:
+            vs_o = list(reversed(vs))
+            return [z3.ForAll(vs_o, x) for x in bs]
+        return [g]
+    return [g]
+
+
 def is_num(t):
     return t.kind in ('int', 'real', 'bool')
 
@@ -73,6 +105,10 @@ class Base:
         if isinstance(v, RefV):
             return v.term
         if isinstance(v, Cont):
+            if want is not None and want.is_container and want != v.t and getattr(v, 'empty_literal', False):
+                # an untyped empty display ({} / [] / set()) takes the type of its destination
+                v.t = want
+                v.loc.write(st, self.empty_term(want))
             return v.loc.read(st)
         if isinstance(v, TupleV):
             t = want if (want is not None and want.kind == 'tuple') else v.t
@@ -218,6 +254,14 @@ class Base:
             return
         if z3.is_true(goal):
             return
+        parts = split_goal(goal)
+        if len(parts) > 1:
+            for i, g in enumerate(parts):
+                self._oblige1(st, g, '%s.%d' % (kind, i), frame, node, note)
+            return
+        self._oblige1(st, goal, kind, frame, node, note)
+
+    def _oblige1(self, st, goal, kind, frame, node=None, note=''):
         where = ''
         if node is not None and hasattr(node, 'lineno'):
             where = '%s:%d' % (frame.finfo.path if frame.finfo else '?', node.lineno)
